@@ -10,6 +10,7 @@ import (
 	"io"
 	"time"
 
+	"github.com/cloudwego/eino/callbacks"
 	"github.com/cloudwego/eino/compose"
 	"github.com/cloudwego/eino/schema"
 
@@ -45,15 +46,16 @@ type FMap struct {
 }
 
 type Prog struct {
-	Op     string  `json:"op"` // node | seq | par | branch | sub | loop (Graph API, any-predecessor mode: C = condition, Kids[0] = body)
-	W      *Wrap   `json:"w,omitempty"`
-	N      *NSpec  `json:"n,omitempty"`
-	C      *CSpec  `json:"c,omitempty"`
-	ID     int     `json:"id,omitempty"` // sub: node key
-	Kids   []*Prog `json:"kids,omitempty"`
-	DAG    bool    `json:"dag,omitempty"`   // sub: trigger mode of the nested graph
-	Front  string  `json:"front,omitempty"` // sub: how the nested graph is built ("" = Graph API, wf, chain)
-	OutMap *FMap   `json:"outmap,omitempty"` // node | sub, Workflow only: mapping on the outgoing data edges
+	Op      string  `json:"op"` // node | seq | par | branch | sub | loop (Graph API, any-predecessor mode: C = condition, Kids[0] = body) | skip (empty branch alternative, Graph API)
+	W       *Wrap   `json:"w,omitempty"`
+	N       *NSpec  `json:"n,omitempty"`
+	C       *CSpec  `json:"c,omitempty"`
+	ID      int     `json:"id,omitempty"` // sub: node key
+	Kids    []*Prog `json:"kids,omitempty"`
+	DAG     bool    `json:"dag,omitempty"`     // sub: trigger mode of the nested graph
+	Front   string  `json:"front,omitempty"`   // sub: how the nested graph is built ("" = Graph API, wf, chain)
+	OutMap  *FMap   `json:"outmap,omitempty"`  // node | sub, Workflow only: mapping on the outgoing data edges
+	PassMap bool    `json:"passmap,omitempty"` // pass (AddPassthroughNode, key ID): the type passing through is a map
 }
 
 func (f *FMap) mappings() []*compose.FieldMapping {
@@ -77,6 +79,8 @@ func (f *FMap) mappings() []*compose.FieldMapping {
 // static types: false = string, true = map[string]any
 func (p *Prog) inMap() bool {
 	switch p.Op {
+	case "pass":
+		return p.PassMap
 	case "node":
 		if p.W != nil && p.W.In != nil {
 			return true
@@ -103,6 +107,8 @@ func (p *Prog) outMap() bool {
 // type of the value p itself produces (before any field mapping on its outgoing edges)
 func (p *Prog) rawOutMap() bool {
 	switch p.Op {
+	case "pass":
+		return p.PassMap
 	case "node":
 		if p.W != nil && p.W.Out != nil {
 			return true
@@ -115,7 +121,7 @@ func (p *Prog) rawOutMap() bool {
 		return p.Kids[0].outMap()
 	case "seq":
 		return p.Kids[len(p.Kids)-1].outMap()
-	case "par":
+	case "par", "multi":
 		return true
 	default:
 		return p.Kids[0].outMap()
@@ -125,8 +131,10 @@ func (p *Prog) rawOutMap() bool {
 // (min, max) number of nodes on a path through p
 func (p *Prog) plen() (int, int) {
 	switch p.Op {
-	case "node", "sub":
+	case "node", "sub", "pass":
 		return 1, 1
+	case "skip":
+		return 0, 0
 	case "loop":
 		return p.Kids[0].plen()
 	case "seq":
@@ -156,13 +164,13 @@ func (p *Prog) plen() (int, int) {
 // same length.
 func (p *Prog) balanced() bool {
 	switch p.Op {
-	case "node":
+	case "node", "skip", "pass":
 		return true
 	case "loop":
 		return p.Kids[0].balanced()
 	case "sub":
 		return true // own graph, own mode
-	case "par":
+	case "par", "multi":
 		l := -1
 		for _, k := range p.Kids {
 			a, b := k.plen()
@@ -192,6 +200,7 @@ func (p *Prog) walk(f func(*Prog)) {
 // ---------------------------------------------------------------- graph construction
 
 type gAPI interface {
+	AddPassthroughNode(key string, opts ...compose.GraphAddNodeOpt) error
 	AddLambdaNode(key string, node *compose.Lambda, opts ...compose.GraphAddNodeOpt) error
 	AddGraphNode(key string, node compose.AnyGraph, opts ...compose.GraphAddNodeOpt) error
 	AddEdge(startNode, endNode string) error
@@ -315,6 +324,52 @@ func mkBranchT[T any](c *CSpec, targets []string, rec *recorder) *compose.GraphB
 	}, ends)
 }
 
+func mkMultiBranch(c *CSpec, isMap bool, targets []string, rec *recorder) *compose.GraphBranch {
+	if isMap {
+		return mkMultiBranchT[map[string]any](c, targets, rec)
+	}
+	return mkMultiBranchT[string](c, targets, rec)
+}
+
+// the condition selects a non-empty set of alternatives: bit i of 1 + size mod (2^n - 1)
+func mkMultiBranchT[T any](c *CSpec, targets []string, rec *recorder) *compose.GraphBranch {
+	ends := map[string]bool{}
+	for _, t := range targets {
+		ends[t] = true
+	}
+	pick := func(x any) (map[string]bool, error) {
+		if c.Fail {
+			return nil, errNode
+		}
+		mask := 1 + sizeVal(x)%((1<<uint(len(targets)))-1)
+		sel := map[string]bool{}
+		for i, t := range targets {
+			if mask&(1<<uint(i)) != 0 {
+				sel[t] = true
+			}
+		}
+		return sel, nil
+	}
+	if c.Collect {
+		return compose.NewStreamGraphMultiBranch(func(ctx context.Context, in *schema.StreamReader[T]) (map[string]bool, error) {
+			rec.add(c.ID, "C")
+			cs, err := readAll(in)
+			if err != nil {
+				return nil, err
+			}
+			x, err := concatAny(cs)
+			if err != nil {
+				return nil, err
+			}
+			return pick(x)
+		}, ends)
+	}
+	return compose.NewGraphMultiBranch(func(ctx context.Context, in T) (map[string]bool, error) {
+		rec.add(c.ID, "I")
+		return pick(any(in))
+	}, ends)
+}
+
 // build adds p to g. from = predecessors to connect (nil: the caller connects the returned
 // entries itself). Returns entry and exit node keys.
 // loops of the graph under construction: the exit node of a loop body reaches its
@@ -326,9 +381,21 @@ type loopInfo struct {
 	targets []string
 }
 
+// a branch one of whose alternatives is empty: that alternative's target is whatever the
+// branch re-joins at (the next node, or END), known only when that is connected
+type skipBranch struct {
+	from    string
+	c       *CSpec
+	isMap   bool
+	targets []string // "" at the empty alternative
+	hole    []string
+}
+
 type loopBuild struct {
 	byExit map[string]*loopInfo
 	all    []*loopInfo
+	skipOf map[string]*skipBranch // pseudo exit key of the empty alternative
+	skips  []*skipBranch
 }
 
 func (lb *loopBuild) edge(g gAPI, from, to string) error {
@@ -336,10 +403,28 @@ func (lb *loopBuild) edge(g gAPI, from, to string) error {
 		li.targets = append(li.targets, to)
 		return nil
 	}
+	if sb := lb.skipOf[from]; sb != nil {
+		sb.hole = append(sb.hole, to)
+		return nil
+	}
 	return g.AddEdge(from, to)
 }
 
 func (lb *loopBuild) finish(g gAPI, rec *recorder) error {
+	for _, sb := range lb.skips {
+		if len(sb.hole) != 1 {
+			return errors.New("harness: a branch with an empty alternative needs exactly one join node")
+		}
+		targets := append([]string(nil), sb.targets...)
+		for i, t := range targets {
+			if t == "" {
+				targets[i] = sb.hole[0]
+			}
+		}
+		if err := g.AddBranch(sb.from, mkBranch(sb.c, sb.isMap, targets, rec)); err != nil {
+			return err
+		}
+	}
 	for _, li := range lb.all {
 		if len(li.targets) != 1 {
 			return errors.New("harness: a loop needs exactly one successor")
@@ -413,6 +498,12 @@ func build(g gAPI, p *Prog, from []string, rec *recorder, lb *loopBuild) (entrie
 		return nil
 	}
 	switch p.Op {
+	case "pass":
+		key := nodeKey(p.ID)
+		if err = g.AddPassthroughNode(key); err != nil {
+			return
+		}
+		return []string{key}, []string{key}, connect(key)
 	case "node":
 		key := nodeKey(p.N.ID)
 		if err = g.AddLambdaNode(key, mkLambda(p.N, rec), p.wrapOpts(rec)...); err != nil {
@@ -470,7 +561,7 @@ func build(g gAPI, p *Prog, from []string, rec *recorder, lb *loopBuild) (entrie
 		lb.byExit[ex[0]] = li
 		lb.all = append(lb.all, li)
 		return en, ex, nil
-	case "branch":
+	case "multi":
 		if len(from) != 1 || lb.byExit[from[0]] != nil {
 			return nil, nil, errors.New("harness: a branch needs exactly one predecessor (not a loop exit)")
 		}
@@ -486,6 +577,45 @@ func build(g gAPI, p *Prog, from []string, rec *recorder, lb *loopBuild) (entrie
 			}
 			targets = append(targets, en[0])
 			exits = append(exits, ex...)
+		}
+		err = g.AddBranch(from[0], mkMultiBranch(p.C, p.inMap(), targets, rec))
+		return nil, exits, err
+	case "branch":
+		if len(from) != 1 || lb.byExit[from[0]] != nil {
+			return nil, nil, errors.New("harness: a branch needs exactly one predecessor (not a loop exit)")
+		}
+		var targets []string
+		var sb *skipBranch
+		for _, k := range p.Kids {
+			if k.Op == "skip" {
+				if sb != nil {
+					return nil, nil, errors.New("harness: one empty alternative per branch")
+				}
+				sb = &skipBranch{from: from[0], c: p.C, isMap: p.inMap()}
+				marker := fmt.Sprintf("skip#%d", p.C.ID)
+				if lb.skipOf == nil {
+					lb.skipOf = map[string]*skipBranch{}
+				}
+				lb.skipOf[marker] = sb
+				lb.skips = append(lb.skips, sb)
+				targets = append(targets, "")
+				exits = append(exits, marker)
+				continue
+			}
+			var en, ex []string
+			en, ex, err = build(g, k, nil, rec, lb)
+			if err != nil {
+				return
+			}
+			if len(en) != 1 {
+				return nil, nil, errors.New("harness: a branch alternative needs exactly one entry")
+			}
+			targets = append(targets, en[0])
+			exits = append(exits, ex...)
+		}
+		if sb != nil {
+			sb.targets = targets
+			return nil, exits, nil
 		}
 		err = g.AddBranch(from[0], mkBranch(p.C, p.inMap(), targets, rec))
 		return nil, exits, err
@@ -542,6 +672,7 @@ func newAnyT[I, O any](p *Prog, front string, rec *recorder) (compose.AnyGraph, 
 // ---------------------------------------------------------------- Workflow front end
 
 type wfAPI interface {
+	AddPassthroughNode(key string, opts ...compose.GraphAddNodeOpt) *compose.WorkflowNode
 	AddLambdaNode(key string, lambda *compose.Lambda, opts ...compose.GraphAddNodeOpt) *compose.WorkflowNode
 	AddGraphNode(key string, graph compose.AnyGraph, opts ...compose.GraphAddNodeOpt) *compose.WorkflowNode
 	AddBranch(fromNodeKey string, branch *compose.GraphBranch) *compose.WorkflowBranch
@@ -571,6 +702,10 @@ func buildWF2(wf wfAPI, p *Prog, from []exitRef, viaBranch bool, rec *recorder) 
 		}
 	}
 	switch p.Op {
+	case "pass":
+		key := nodeKey(p.ID)
+		connect(wf.AddPassthroughNode(key))
+		return []string{key}, []exitRef{{key, nil}}, nil
 	case "node":
 		key := nodeKey(p.N.ID)
 		connect(wf.AddLambdaNode(key, mkLambda(p.N, rec), p.wrapOpts(rec)...))
@@ -666,6 +801,8 @@ func buildChain[I, O any](ch *compose.Chain[I, O], p *Prog, rec *recorder) error
 	}
 	for _, st := range stages {
 		switch st.Op {
+		case "pass":
+			ch.AppendPassthrough(compose.WithNodeKey(nodeKey(st.ID)))
 		case "node", "sub":
 			l, g, err := single(st)
 			if err != nil {
@@ -800,6 +937,42 @@ type runner interface {
 type runnerT[I, O any] struct {
 	r   compose.Runnable[I, O]
 	rec *recorder
+	cb  bool // every call carries a callback handler that drains the stream copies it is given
+}
+
+// drainHandler observes every timing; stream inputs / outputs are read to the end (or to the
+// first error item) on a goroutine of their own and closed.
+func drainHandler() callbacks.Handler {
+	return callbacks.NewHandlerBuilder().
+		OnStartFn(func(ctx context.Context, info *callbacks.RunInfo, in callbacks.CallbackInput) context.Context {
+			return ctx
+		}).
+		OnEndFn(func(ctx context.Context, info *callbacks.RunInfo, out callbacks.CallbackOutput) context.Context {
+			return ctx
+		}).
+		OnErrorFn(func(ctx context.Context, info *callbacks.RunInfo, err error) context.Context { return ctx }).
+		OnStartWithStreamInputFn(func(ctx context.Context, info *callbacks.RunInfo, in *schema.StreamReader[callbacks.CallbackInput]) context.Context {
+			go func() {
+				defer in.Close()
+				for {
+					if _, err := in.Recv(); err != nil {
+						return
+					}
+				}
+			}()
+			return ctx
+		}).
+		OnEndWithStreamOutputFn(func(ctx context.Context, info *callbacks.RunInfo, out *schema.StreamReader[callbacks.CallbackOutput]) context.Context {
+			go func() {
+				defer out.Close()
+				for {
+					if _, err := out.Recv(); err != nil {
+						return
+					}
+				}
+			}()
+			return ctx
+		}).Build()
 }
 
 const watchdog = 10 * time.Second
@@ -878,25 +1051,29 @@ func typedChunks[I any](chunks []any) []I {
 func (r runnerT[I, O]) call(par int, x any, chunks []any) POut {
 	ctx := context.Background()
 	r.rec.reset()
+	var opts []compose.Option
+	if r.cb {
+		opts = append(opts, compose.WithCallbacks(drainHandler()))
+	}
 	o := guarded(func() POut {
 		switch par {
 		case 0:
-			v, err := r.r.Invoke(ctx, x.(I))
+			v, err := r.r.Invoke(ctx, x.(I), opts...)
 			return valueOut(any(v), err)
 		case 1:
-			return streamOut(r.r.Stream(ctx, x.(I)))
+			return streamOut(r.r.Stream(ctx, x.(I), opts...))
 		case 2:
-			v, err := r.r.Collect(ctx, schema.StreamReaderFromArray(typedChunks[I](chunks)))
+			v, err := r.r.Collect(ctx, schema.StreamReaderFromArray(typedChunks[I](chunks)), opts...)
 			return valueOut(any(v), err)
 		default:
-			return streamOut(r.r.Transform(ctx, schema.StreamReaderFromArray(typedChunks[I](chunks))))
+			return streamOut(r.r.Transform(ctx, schema.StreamReaderFromArray(typedChunks[I](chunks)), opts...))
 		}
 	})
 	o.calls = r.rec.snapshot()
 	return o
 }
 
-func compileT[I, O any](p *Prog, front string, dag bool, rec *recorder) (runner, error) {
+func compileT[I, O any](p *Prog, front string, dag bool, cb bool, rec *recorder) (runner, error) {
 	_, g, err := newAnyT[I, O](p, front, rec)
 	if err != nil {
 		return nil, err
@@ -911,19 +1088,19 @@ func compileT[I, O any](p *Prog, front string, dag bool, rec *recorder) (runner,
 	if err != nil {
 		return nil, err
 	}
-	return runnerT[I, O]{r: r, rec: rec}, nil
+	return runnerT[I, O]{r: r, rec: rec, cb: cb}, nil
 }
 
-func compile(p *Prog, front string, dag bool, rec *recorder) (runner, error) {
+func compile(p *Prog, front string, dag bool, cb bool, rec *recorder) (runner, error) {
 	switch {
 	case !p.inMap() && !p.outMap():
-		return compileT[string, string](p, front, dag, rec)
+		return compileT[string, string](p, front, dag, cb, rec)
 	case p.inMap() && !p.outMap():
-		return compileT[map[string]any, string](p, front, dag, rec)
+		return compileT[map[string]any, string](p, front, dag, cb, rec)
 	case !p.inMap() && p.outMap():
-		return compileT[string, map[string]any](p, front, dag, rec)
+		return compileT[string, map[string]any](p, front, dag, cb, rec)
 	default:
-		return compileT[map[string]any, map[string]any](p, front, dag, rec)
+		return compileT[map[string]any, map[string]any](p, front, dag, cb, rec)
 	}
 }
 
